@@ -16,6 +16,7 @@ import (
 	"os"
 	"path/filepath"
 	"regexp"
+	"runtime/debug"
 	"sort"
 	"strconv"
 	"strings"
@@ -28,6 +29,7 @@ import (
 
 	"verif/enumx"
 	"verif/ref/crashfs/ctl"
+	"verif/ref/crashfs/rawfs"
 )
 
 func TestCheck(t *testing.T) { enumx.Main(t, "C18", "crash", run) }
@@ -117,32 +119,28 @@ const (
 // readTarget is the concurrent reader: resolve the target path and read the
 // complete directory it leads to.
 func readTarget(target string) (kind int, files map[string]string, detail string) {
-	if _, err := os.Lstat(target); err != nil {
-		if errors.Is(err, fs.ErrNotExist) {
+	names, err := rawfs.List(target) // follows the symlink
+	if err != nil {
+		k, lerr := rawfs.Lkind(target)
+		if lerr == nil && k == rawfs.Absent {
 			return tAbsent, nil, "absent"
 		}
-		return tUnresolvable, nil, err.Error()
+		if l, e := rawfs.Readlink(target); e == nil {
+			return tUnresolvable, nil, fmt.Sprintf("a symlink to %s: opening it as a directory: %v", l, err)
+		}
+		return tUnresolvable, nil, fmt.Sprintf("opening it as a directory: %v", err)
 	}
-	ents, err := os.ReadDir(target) // follows the symlink
-	if err != nil {
-		if l, e := os.Readlink(target); e == nil {
-			return tUnresolvable, nil, fmt.Sprintf("symlink to %s: %v", l, err)
+	files = make(map[string]string, len(names))
+	for _, n := range names {
+		data, ok, err := rawfs.ReadRegular(target + "/" + n)
+		switch {
+		case err != nil:
+			files[n] = "<unreadable: " + err.Error() + ">"
+		case !ok:
+			files[n] = "<not a regular file>"
+		default:
+			files[n] = data
 		}
-		return tUnresolvable, nil, err.Error()
-	}
-	files = map[string]string{}
-	for _, e := range ents {
-		p := filepath.Join(target, e.Name())
-		if !e.Type().IsRegular() {
-			files[e.Name()] = "<not a regular file: " + e.Type().String() + ">"
-			continue
-		}
-		b, err := os.ReadFile(p)
-		if err != nil {
-			files[e.Name()] = "<unreadable: " + err.Error() + ">"
-			continue
-		}
-		files[e.Name()] = string(b)
 	}
 	return tDir, files, ""
 }
@@ -178,7 +176,7 @@ func showSet(s map[string]string) string {
 }
 
 // observe is the invariant of the property, evaluated at one instant.
-func (m *model) observe(when string) {
+func (m *model) observe(when func() string) {
 	m.nobs++
 	if m.key != "" {
 		return
@@ -187,13 +185,13 @@ func (m *model) observe(when string) {
 	switch kind {
 	case tAbsent:
 		if m.anyNil {
-			m.fail("target-absent-after-successful-write", "%s: the target is absent although a Write has returned nil", when)
+			m.fail("target-absent-after-successful-write", "%s: the target is absent although a Write has returned nil", when())
 		} else if m.seenPresent {
-			m.fail("target-absent-after-present", "%s: the target is absent although it has been present before", when)
+			m.fail("target-absent-after-present", "%s: the target is absent although it has been present before", when())
 		}
 	case tUnresolvable:
 		m.seenPresent = true
-		m.fail("target-unresolvable", "%s: the target exists but does not resolve to a directory (%s)", when, detail)
+		m.fail("target-unresolvable", "%s: the target exists but does not resolve to a directory (%s)", when(), detail)
 	case tDir:
 		m.seenPresent = true
 		for _, w := range m.writes {
@@ -201,7 +199,7 @@ func (m *model) observe(when string) {
 				return
 			}
 		}
-		m.fail("target-partial-or-mixed", "%s: the target shows %s, which is not the complete file set of any single Write call of the history", when, showSet(files))
+		m.fail("target-partial-or-mixed", "%s: the target shows %s, which is not the complete file set of any single Write call of the history", when(), showSet(files))
 	}
 }
 
@@ -227,14 +225,13 @@ func (m *model) afterNil(want map[string]string, crashFree bool, what string) {
 	}
 	// "without crashes, only the current version directory remains after each Write"
 	cur := ""
-	if l, err := os.Readlink(m.target); err == nil {
+	if l, err := rawfs.Readlink(m.target); err == nil {
 		cur = filepath.Base(l)
 	}
 	tn := filepath.Base(m.target)
-	ents, _ := os.ReadDir(m.base)
+	names, _ := rawfs.List(m.base)
 	var extra []string
-	for _, e := range ents {
-		n := e.Name()
+	for _, n := range names {
 		if n == tn || n == cur {
 			continue
 		}
@@ -331,22 +328,22 @@ func canon(root, s string) string {
 
 // diskState lists the base directory.
 func diskState(base string) string {
-	ents, err := os.ReadDir(base)
+	names, err := rawfs.List(base)
 	if err != nil {
 		return "(base absent)"
 	}
 	var out []string
-	for _, e := range ents {
-		p := filepath.Join(base, e.Name())
-		switch {
-		case e.Type()&fs.ModeSymlink != 0:
-			l, _ := os.Readlink(p)
-			out = append(out, e.Name()+" -> "+l)
-		case e.IsDir():
+	for _, n := range names {
+		p := filepath.Join(base, n)
+		switch k, _ := rawfs.Lkind(p); k {
+		case rawfs.Symlink:
+			l, _ := rawfs.Readlink(p)
+			out = append(out, n+" -> "+l)
+		case rawfs.Dir:
 			_, files, _ := readTarget(p)
-			out = append(out, e.Name()+showSet(files))
+			out = append(out, n+showSet(files))
 		default:
-			out = append(out, e.Name())
+			out = append(out, n)
 		}
 	}
 	return strings.Join(out, "; ")
@@ -356,7 +353,7 @@ func diskState(base string) string {
 func (w *worker) exec(sc Scenario) (res result) {
 	base := filepath.Join(w.root, "base")
 	target := filepath.Join(base, "tgt")
-	defer os.RemoveAll(base)
+	defer rawfs.RemoveTree(base)
 	m := &model{root: w.root, base: base, target: target}
 	start := w.c.TotalSteps()
 	proc, call := 0, 0
@@ -366,7 +363,9 @@ func (w *worker) exec(sc Scenario) (res result) {
 		} else {
 			m.trace = append(m.trace, ev.Label)
 		}
-		m.observe(fmt.Sprintf("after step %d (%s) of Write #%d of process %d", ev.Index, ev.Label, call, proc))
+		m.observe(func() string {
+			return fmt.Sprintf("after step %d (%s) of Write #%d of process %d", ev.Index, ev.Label, call, proc)
+		})
 	}
 	defer func() {
 		w.c.Observe = nil
@@ -412,7 +411,7 @@ func (w *worker) exec(sc Scenario) (res result) {
 				res.fired++
 				crashed = true
 				m.trace = append(m.trace, "CRASH("+cr.String()+")")
-				m.observe("after the " + cr.String() + " in " + what)
+				m.observe(func() string { return "after the " + cr.String() + " in " + what })
 				break // the process is dead; its Dir is abandoned
 			}
 			if err != nil {
@@ -470,6 +469,11 @@ func (s *slot) add(res result, sc Scenario) {
 }
 
 func run(r *enumx.Run, replay *enumx.ReplayCase) {
+	// The live heap is tiny and every case allocates a little, so the default
+	// pacer runs hundreds of collections per second, each synchronising all
+	// workers while they sit in system calls. Collect by memory limit instead.
+	defer debug.SetGCPercent(debug.SetGCPercent(-1))
+	defer debug.SetMemoryLimit(debug.SetMemoryLimit(512 << 20))
 	// Scratch: a memory filesystem when there is one (the syscall-level
 	// semantics the property depends on — atomic rename(2), symlink(2) failing
 	// with EEXIST — are POSIX and the same there; a journalling disk filesystem
@@ -533,7 +537,7 @@ func run(r *enumx.Run, replay *enumx.ReplayCase) {
 	}
 	r.Rule(fmt.Sprintf("every scenario (history of 1..%d Writes by one Dir over the file sets {}, {a}, {a,b}, {b,c} with per-call contents; "+
 		"crash before and after every filesystem step of the last Write — MkdirAll, WriteFile split into create/first half/rest, Symlink, Rename, RemoveAll split per entry; "+
-		"then a fresh Dir writing every set, followed by nothing or every second set, or crashing before and after every step of that Write followed by a third fresh Dir writing every set), "+
+		"then a fresh Dir writing every set, followed by nothing or every second set, or crashing inside that Write (thorough: before and after every step; quick: once per distinct gap, i.e. before step 0 and after every step) followed by a third fresh Dir writing every set), "+
 		"executed on the real filesystem through the real dir.go with os/time substituted; the property is evaluated after every single step, after every crash and after every Write that returns. "+
 		"Step counts are measured from a completed run, so every placed crash fires. A case is counted distinct/non-trivial unless it places a crash 'before step k>0', "+
 		"which leaves the same disk state as 'after step k-1' (both are executed).", maxLen))
@@ -627,6 +631,10 @@ func run(r *enumx.Run, replay *enumx.ReplayCase) {
 		}
 	}
 	slots2 := make([]slot, len(items))
+	nested := "the n+1 distinct gaps (before step 0, after each of the n steps)"
+	if r.Thorough() {
+		nested = "the 2n points (before and after each of the n steps)"
+	}
 	done = r.Parallel(len(items), func(i int) {
 		w := get()
 		defer put(w)
@@ -648,6 +656,11 @@ func run(r *enumx.Run, replay *enumx.ReplayCase) {
 			}
 			for k := 0; k < n; k++ {
 				for _, after := range []bool{false, true} {
+					if !after && k > 0 && !r.Thorough() {
+						// same disk state as "after step k-1"; the quick tier places
+						// the nested crash once per distinct gap between two steps
+						continue
+					}
 					for t := range fileSets {
 						sc := Scenario{Hist: hists[it.h], C1: &it.c1, Rec: []int{r1}, C2: &Crash{k, after}, Third: []int{t}}
 						note(w.exec(sc), sc, s)
@@ -660,7 +673,7 @@ func run(r *enumx.Run, replay *enumx.ReplayCase) {
 	if done < len(items) {
 		r.Incomplete(fmt.Sprintf("crash cases: %d of %d (history, first crash point) items completed within the budget (items are ordered by history length)", done, len(items)))
 	} else {
-		r.Space(fmt.Sprintf("all %d (history, first crash point) items, each with 4 recovering first Writes x (no second crash: 1 + 4 continuations; second crash at each of 2n points x 4 third-process Writes)", len(items)))
+		r.Space(fmt.Sprintf("all %d (history, first crash point) items, each with 4 recovering first Writes x (no second crash: 1 + 4 continuations; second crash at each of %s x 4 third-process Writes)", len(items), nested))
 	}
 	r.Set("first_crash_points", len(items))
 
